@@ -11,12 +11,12 @@ import (
 // over the repository functions. Values are tainted when they are derived by
 // arithmetic/conversion/phi/local-cell flow from a source value.
 type Taint struct {
-	p       *Program
-	vals    map[ssa.Value]ssa.Value // tainted value -> originating source value
-	fields  map[*types.Var]ssa.Value
+	p        *Program
+	vals     map[ssa.Value]ssa.Value // tainted value -> originating source value
+	fields   map[*types.Var]ssa.Value
 	retTaint map[*ssa.Function]map[int]ssa.Value
 	isSource func(v ssa.Value) bool
-	callers map[*ssa.Function][]ssa.CallInstruction
+	callers  map[*ssa.Function][]ssa.CallInstruction
 }
 
 func newTaint(p *Program, isSource func(v ssa.Value) bool) *Taint {
